@@ -1197,6 +1197,135 @@ theorem matmulDenseDia_abs (a : Dense R) (Rm : Dia R) (s : R) (out : Option (Den
         rw [if_pos hlt, hT]
 end denseDiaFinal
 
+/-! ### `add_dia` -/
+section diaAddThm
+variable {R : Type} [CommRing R]
+
+/-- value a list of stored diagonals holds at offset `o`, column `c` (diagonals with the same offset adding up) -/
+def diagVal (ds : List (Int × (Nat → R))) (o : Int) (c : Nat) : R := (ds.map fun d => if d.1 = o then d.2 c else 0).sum
+
+theorem diagVal_nil (o : Int) (c : Nat) : diagVal ([] : List (Int × (Nat → R))) o c = 0 := by simp [diagVal]
+theorem diagVal_cons (d : Int × (Nat → R)) (ds) (o : Int) (c : Nat) :
+    diagVal (d :: ds) o c = (if d.1 = o then d.2 c else 0) + diagVal ds o c := by simp [diagVal]
+
+theorem diagVal_scaled (s : R) (ds : List (Int × (Nat → R))) (o : Int) (c : Nat) :
+    diagVal (ds.map fun d => (d.1, fun c => s * d.2 c)) o c = s * diagVal ds o c := by
+  induction ds with
+  | nil => simp [diagVal]
+  | cons d ds ih =>
+    rw [List.map_cons, diagVal_cons, diagVal_cons, ih]
+    by_cases h : d.1 = o
+    · simp only [h, if_true]; ring
+    · simp only [h, if_false]; ring
+
+/-- the merge adds the two operands diagonal value by diagonal value, whatever the order of the stored offsets -/
+theorem addDiaMerge_val (s : R) : ∀ (fuel : Nat) (l r : List (Int × (Nat → R))), l.length + r.length ≤ fuel →
+    ∀ (o : Int) (c : Nat), diagVal (addDiaMerge s fuel l r) o c = diagVal l o c + s * diagVal r o c := by
+  intro fuel
+  induction fuel with
+  | zero =>
+    intro l r h o c
+    have hl : l = [] := List.eq_nil_of_length_eq_zero (by omega)
+    have hr : r = [] := List.eq_nil_of_length_eq_zero (by omega)
+    subst hl; subst hr
+    simp [addDiaMerge, diagVal]
+  | succ fuel ih =>
+    intro l r h o c
+    cases l with
+    | nil =>
+      simp only [addDiaMerge]
+      rw [diagVal_scaled, diagVal_nil, zero_add]
+    | cons dl l =>
+      cases r with
+      | nil => simp only [addDiaMerge]; rw [diagVal_nil, mul_zero, add_zero]
+      | cons dr r =>
+        simp only [addDiaMerge]
+        simp only [List.length_cons] at h
+        split
+        · next heq =>
+          rw [diagVal_cons, ih l r (by omega), diagVal_cons, diagVal_cons]
+          by_cases ho : dl.1 = o
+          · have : dr.1 = o := by rw [← heq]; exact ho
+            simp only [ho, this, if_true]; ring
+          · have : ¬ dr.1 = o := by rw [← heq]; exact ho
+            simp only [ho, this, if_false]; ring
+        · split
+          · rw [diagVal_cons, ih l (dr :: r) (by simp only [List.length_cons]; omega)]
+            simp only [diagVal_cons]
+            ring
+          · rw [diagVal_cons, ih (dl :: l) r (by simp only [List.length_cons]; omega)]
+            simp only [diagVal_cons]
+            by_cases ho : dr.1 = o
+            · simp only [ho, if_true]; ring
+            · simp only [ho, if_false]; ring
+
+/-- strictly increasing offsets, all above a bound -/
+def IncAbove (b : Int) : List (Int × (Nat → R)) → Prop
+  | [] => True
+  | d :: ds => b < d.1 ∧ IncAbove d.1 ds
+
+theorem IncAbove.mono {b b' : Int} (h : b' ≤ b) : ∀ {ds : List (Int × (Nat → R))}, IncAbove b ds → IncAbove b' ds
+  | [], _ => trivial
+  | _ :: _, hd => ⟨by have := hd.1; omega, hd.2⟩
+
+theorem incAbove_scaled (s : R) (b : Int) : ∀ (ds : List (Int × (Nat → R))), IncAbove b ds →
+    IncAbove b (ds.map fun d => (d.1, fun c => s * d.2 c))
+  | [], _ => trivial
+  | d :: ds, h => ⟨h.1, incAbove_scaled s d.1 ds h.2⟩
+
+theorem addDiaMerge_inc (s : R) : ∀ (fuel : Nat) (b : Int) (l r : List (Int × (Nat → R))), l.length + r.length ≤ fuel →
+    IncAbove b l → IncAbove b r → IncAbove b (addDiaMerge s fuel l r) := by
+  intro fuel
+  induction fuel with
+  | zero => intro b l r _ _ _; simp [addDiaMerge, IncAbove]
+  | succ fuel ih =>
+    intro b l r h hl hr
+    cases l with
+    | nil => simp only [addDiaMerge]; exact incAbove_scaled s b r hr
+    | cons dl l =>
+      cases r with
+      | nil => simpa [addDiaMerge] using hl
+      | cons dr r =>
+        simp only [addDiaMerge]
+        simp only [List.length_cons] at h
+        split
+        · next heq =>
+          exact ⟨hl.1, ih dl.1 l r (by omega) hl.2 (by rw [heq]; exact hr.2)⟩
+        · next hne =>
+          split
+          · next hle =>
+            have hlt : dl.1 < dr.1 := by omega
+            exact ⟨hl.1, ih dl.1 l (dr :: r) (by simp only [List.length_cons]; omega) hl.2 ⟨hlt, hr.2⟩⟩
+          · next hgt =>
+            have hlt : dr.1 < dl.1 := by omega
+            exact ⟨hr.1, ih dr.1 (dl :: l) r (by simp only [List.length_cons]; omega) ⟨hlt, hl.2⟩ hr.2⟩
+
+theorem incAbove_nodup : ∀ (b : Int) (ds : List (Int × (Nat → R))), IncAbove b ds →
+    (ds.map (·.1)).Nodup ∧ ∀ x ∈ ds.map (·.1), b < x
+  | _, [], _ => ⟨List.nodup_nil, fun x hx => absurd hx List.not_mem_nil⟩
+  | b, d :: ds, h => by
+    obtain ⟨hn, hall⟩ := incAbove_nodup d.1 ds h.2
+    refine ⟨?_, ?_⟩
+    · rw [List.map_cons, List.nodup_cons]
+      exact ⟨fun hmem => by have := hall _ hmem; omega, hn⟩
+    · intro x hx
+      rw [List.map_cons, List.mem_cons] at hx
+      rcases hx with rfl | hx
+      · exact h.1
+      · have := hall x hx
+        have := h.1
+        omega
+
+/-- **`add_dia` is `left + scale · right`** entry by entry, for diagonal-format operands whose stored offsets
+increase (and the result's offsets increase again, so it needs no re-sorting) -/
+theorem addDia_abs (L Rm : Dia R) (s : R) (b : Int) (hL : IncAbove b L.diags) (hR : IncAbove b Rm.diags) (i j : Nat) :
+    (addDia L Rm s).abs i j = L.abs i j + s * Rm.abs i j ∧ IncAbove b (addDia L Rm s).diags := by
+  have hinc := addDiaMerge_inc s (L.diags.length + Rm.diags.length) b L.diags Rm.diags (Nat.le_refl _) hL hR
+  refine ⟨?_, hinc⟩
+  rw [Dia.abs_eq_sum _ (incAbove_nodup b _ hinc).1, Dia.abs_eq_sum L (incAbove_nodup b _ hL).1, Dia.abs_eq_sum Rm (incAbove_nodup b _ hR).1]
+  exact addDiaMerge_val s _ L.diags Rm.diags (Nat.le_refl _) _ j
+end diaAddThm
+
 /-- **a specialisation constructed by inserting conversions computes the same operation**: if the
 registered implementation refines `f` on the meanings and every converter preserves the meaning, so
 does the constructed one — for every requested combination of operand and output formats -/
